@@ -215,3 +215,27 @@ def canon_bound_text(fn: ast.AST, node: ast.expr, pm=None) -> str:
                 k += 1
                 x.id = mp[x.id]
     return ast.unparse(e)
+
+
+def expand_at(fn: ast.AST, expr: ast.expr, at: ast.stmt, depth: int = 8, _cfg=None) -> ast.expr:
+    """Backward substitution along reaching definitions: every local in `expr` that has exactly one reaching plain definition
+    at statement `at` is replaced by that definition's value, itself expanded at its own statement (handles a name that is
+    rebound several times in straight-line code, unlike `expand`)."""
+    from .cfg import build_cfg
+    cfg = _cfg or build_cfg(fn)
+    params = {a.arg for a in fn.args.args + fn.args.kwonlyargs + fn.args.posonlyargs} if hasattr(fn, "args") else set()
+    if depth <= 0:
+        return expr
+    e = copy.deepcopy(expr)
+    mp = {}
+    for n in ast.walk(e):
+        if isinstance(n, ast.Name) and isinstance(n.ctx, ast.Load) and n.id not in mp:
+            vals = reaching_values(fn, n.id, at, cfg)
+            if len(vals) == 1 and vals[0] is not None:
+                v = vals[0]
+                st = next((s_ for s_ in ast.walk(fn) if isinstance(s_, (ast.Assign, ast.AnnAssign)) and s_.value is v), None)
+                if st is not None and st is not at:
+                    mp[n.id] = expand_at(fn, v, st, depth - 1, cfg)
+    if not mp:
+        return e
+    return ast.fix_missing_locations(_Subst(mp).visit(e))
